@@ -1,6 +1,7 @@
 import NriModel.Lemmas.MuxStream
 import NriModel.Lemmas.MuxSys
 import NriModel.Lemmas.MuxWriter
+import NriModel.Lemmas.MuxOpen
 /-!
 Property theorems for C11 — the multiplexer fails stop: no gaps after errors, nothing hangs
 after close.  Model: `NriModel/Mux.lean` (one mux end as a transition system; `step s ev =
@@ -366,6 +367,36 @@ theorem unfixed_payload_failure_glues_frames :
       encodeFrame ⟨5, [0, 0, 0, 6]⟩ ++ [0, 0, 0, 8, 66, 66, 66, 66, 66, 66, 66, 66] := by decide
   rw [hout, decode_frame ⟨5, [0, 0, 0, 6]⟩ (by decide) (by decide)]
   exact ⟨_, rfl⟩
+
+
+/-! ### `Open` racing `Close` -/
+
+/-- However Opens and Closes are ordered, once the mux has closed every connection `Open` has
+    handed out and still has registered is closed — also one opened at the very moment of the
+    Close, and one opened after it: nothing is left that a `Read` could block on for ever. (The
+    code: `Open`'s "closed already?" check and its registration, and `Close`'s sweep over the
+    registered connections, all under `connLock`.) -/
+theorem C11_open_vs_close (evs : List MuxOpen.Ev) (id : Nat) :
+    (MuxOpen.orun evs).muxClosed = true →
+      (∀ p ∈ (MuxOpen.orun evs).table, p.2 ∈ (MuxOpen.orun evs).closedObjs) ∧
+      (MuxOpen.openAtomic (MuxOpen.orun evs) id).2 ∈ (MuxOpen.openAtomic (MuxOpen.orun evs) id).1.closedObjs := by
+  intro hc
+  have hinv := MuxOpen.orun_inv evs MuxOpen.OInv.init
+  refine ⟨hinv.closed hc, ?_⟩
+  have hinv2 := MuxOpen.openAtomic_inv hinv id
+  have hc2 : (MuxOpen.openAtomic (MuxOpen.orun evs) id).1.muxClosed = true := by
+    unfold MuxOpen.openAtomic
+    cases MuxOpen.lookup (MuxOpen.orun evs).table id <;> simpa using hc
+  exact hinv2.closed hc2 _ (MuxOpen.lookup_some_mem (MuxOpen.openAtomic_registers _ id))
+
+/-- The split `Open` (the closed flag read BEFORE the lock is taken — seeded breakage C11-r6b): a
+    `Close` that runs between the two steps leaves a registered, open connection on a closed mux. -/
+theorem unfixed_split_open_survives_close :
+    let s0 : MuxOpen.OSt := {}
+    let v := MuxOpen.openCheck s0 7
+    let s1 := MuxOpen.closeMux s0
+    let (s2, h) := MuxOpen.openInsert s1 v
+    s2.muxClosed = true ∧ MuxOpen.lookup s2.table 7 = some h ∧ h ∉ s2.closedObjs := by decide
 
 /-! ### the unchanged code: a connection opened after the mux has closed never learns of it
 (finding C11:open-after-close) -/
